@@ -1051,7 +1051,11 @@ class Interp:
                 return ln > k
             return ln < k
         if name == "firstline":
-            return self.data_count == 1 and self.pos == self.hdr_pos
+            # docs/functions/last.md: "True only for the 0th row; the headers row" - when the file
+            # starts with blank records the two readings differ
+            if self.hdr_pos != 0:
+                raise Undefined("firstline() in a file that starts with a blank record")
+            return self.pos == 0
         if name == "firstscan":
             return self.res.scan_count == 1
         if name == "last":
